@@ -246,6 +246,7 @@ struct Rw<'a> {
     qnames: Vec<String>,
     index2: bool,
     index1: Vec<String>,
+    boolor: bool,
     for_range: bool,
     subst: Vec<(String, String)>,
     sections: &'a BTreeMap<String, String>,
@@ -606,6 +607,14 @@ impl<'a, 'b, 'ast> Visit<'ast> for Collector<'a, 'b> {
                     self.edits.push((r.start, r.end, t));
                 }
             }
+            Expr::Binary(b) if rw.boolor && matches!(b.op, BinOp::BitOr(_)) => {
+                // R15 (option boolor=1): non-short-circuit `a | b` on bool (Verus rejects `|` on bool)
+                //   -> `{ let __l = a; let __r = b; __l || __r }`   (both operands still evaluated, in order)
+                let text = format!("{{ let __l = {}; let __r = {}; __l || __r }}", rw.render_expr(&b.left), rw.render_expr(&b.right));
+                rw.count("R15");
+                let sp = e.span().byte_range();
+                self.edits.push((sp.start, sp.end, text));
+            }
             Expr::Assign(a) if rw.index2 && matches!(&*a.left, Expr::Index(ix) if matches!(&*ix.index, Expr::Tuple(t) if t.elems.len() == 2)) => {
                 // R13: `m[(i, j)] = v` (IndexMut<(usize, usize)>) -> `m.set_at(i, j, v)`
                 if let Expr::Index(ix) = &*a.left {
@@ -824,6 +833,7 @@ fn extract_body(repo: &Path, source: &str, d: &Directive, variant: &str) -> Resu
         qnames: d.opts.get("q").map(|s| s.split(',').map(|x| x.to_string()).collect()).unwrap_or_default(),
         index2: d.opts.get("index2").map(|v| v == "1").unwrap_or(false),
         index1: d.opts.get("index1").map(|s| s.split(',').map(|x| x.to_string()).collect()).unwrap_or_default(),
+        boolor: d.opts.get("boolor").map(|v| v == "1").unwrap_or(false),
         for_range: d.opts.get("for_range").map(|v| v == "1").unwrap_or(false),
         subst,
         sections: &d.sections,
